@@ -108,6 +108,14 @@ Theorem repack_preserves_blobs : forall (store : id -> option bytes) (decode : b
 Proof. exact repack_preserves_blobs_lemma. Qed.
 Print Assumptions repack_preserves_blobs.
 
+(* ... and it does end that way whenever every blob lies inside its (existing) pack, decodes, and
+   packs are shorter than 2^32 - MAX_HOLESIZE bytes (guaranteed by the packer's MAX_SIZE): no panic
+   of the unchecked u32 sums in can_coalesce/append/slicing, no failed read. *)
+Theorem repack_total : forall (store : id -> option bytes) (decode : bytes -> option N -> option bytes) (es : list centry),
+  Forall (entry_inside store decode) es -> exists out, repack true store decode es = Ok out.
+Proof. exact repack_total_lemma. Qed.
+Print Assumptions repack_total.
+
 (* The `self.pack_id == other.pack_id` conjunct of CopyPackBlobs::coalesce is necessary: without it
    (repack false) a sorted two-blob list from two packs hands a blob the bytes of the wrong pack. *)
 Theorem repack_across_packs_refuted :
